@@ -148,7 +148,7 @@ def _classify(v): return v['what'].split(':')[0][:110]
 
 @obligation('C03','isolation', bounds="triple lists of length 1..3 over 2 environments x 2 learner objects x 2 evaluators (indices as z3 ints: every sharing pattern and order); learner kinds {counting double, BanditEpsilon}; 8 fault positions; modes {in-process, emulated workers with maxtasksperchunk in {0,1,2} on chunked or plain environments}",
             functions=FUNCS, classify=_classify, budget={'quick':80,'thorough':900},
-            params=lambda tier: [dict(n=n, fault=f, mode=m) for n in (1,2,3) for f in range(len(FAULTS)) for m in ('inproc','emu_plain','emu_chunked')])
+            params=lambda tier: [dict(n=n, fault=f, mode=m) for n in ((1,2,3) if tier == 'quick' else (1,2,3,4)) for f in range(len(FAULTS)) for m in ('inproc','emu_plain','emu_chunked')])
 def isolation(sym, n, fault, mode):
     fault_i = fault
     fault = FAULTS[fault]
